@@ -46,7 +46,7 @@ def run(ctx):
 
     pipe = Pipeline(ctx, 'C06_Trace', on_reject, lambda e: [e['tx'], e['x'], e['ty'], e['y'], e['via']],
                     parallel=2 if quick else 4)
-    events = Sink(ctx, pipe, lambda e: e['tx'] + e['ty'], ['is', 'sd', 'dd', 'di'])
+    events = Sink(ctx, pipe, lambda e: e['tx'] + e['ty'], ['is', 'sd', 'dd', 'di'], drv=d)
     ptext = 0.04 if quick else 0.02
 
     def asint(o):
